@@ -238,10 +238,13 @@ func (v *PacketDslVisitorImpl) VisitFieldDefinitionWithAttribute(ctx *gen.FieldD
 				})
 				continue
 			}
-			fs.Padding = &model.Padding{
+			// the attribute object may be shared with a MetaData entry: pad a copy
+			padded := *fs
+			padded.Padding = &model.Padding{
 				PadChar: padChar,
 				PadLeft: strings.Contains(fieldAttr.PaddingAttribute().PADDING_ATTR().GetText(), "left"),
 			}
+			f.Attr = &padded
 		case fieldAttr.TagAttribute() != nil:
 			tagValue := fieldAttr.TagAttribute().DIGITS().GetText()
 			tagInt, _ := strconv.Atoi(tagValue)
